@@ -119,10 +119,10 @@ def obligations(cx):
         ex.assume(band(nd >= 0, nd <= xs.n), 'set(): number of distinct elements')
         return Seq(nd, lambda i: Opaque('set element'), tag=('set',))
     ctr2 = {'fit': fit_contract, 'PervaporationFunction.__call__': call_contract, 'set()': set_contract}
-    for iz in (False, True):
-        for forced in (False, True):
-            tag = "find_best_fit.%s.%s" % ('zero' if iz else 'nozero', 'forced-orders' if forced else 'auto-orders')
-            kw = dict(data=data, include_zero=iz, component_index=0, n=(var('n_user', 'I') if forced else None), m=(var('m_user', 'I') if forced else None))
+    for iz, forced, CI in [(a_, b_, c_) for a_ in (False, True) for b_ in (False, True) for c_ in (0, 1)]:
+        if True:
+            tag = "find_best_fit.%s.%s.ci%d" % ('zero' if iz else 'nozero', 'forced-orders' if forced else 'auto-orders', CI)
+            kw = dict(data=data, include_zero=iz, component_index=CI, n=(var('n_user', 'I') if forced else None), m=(var('m_user', 'I') if forced else None))
             bl = var('best_loss'); tried = bvar('tried_any')
             def run_iteration(ex, havoc=True):
                 env = ex.bind(fbf, [], kw)
@@ -159,7 +159,7 @@ def obligations(cx):
             for pi, r in enumerate(rs):
                 e = r.value
                 fc = getattr(r.ex, 'fit_calls', [])
-                okc = len(fc) == 1 and fc[0]['data'] is data and fc[0]['include_zero'] == iz and fc[0]['component_index'] == 0 and fc[0]['n'] is var(names[0] + '_try', 'I') and fc[0]['m'] is var(names[1] + '_try', 'I')
+                okc = len(fc) == 1 and fc[0]['data'] is data and fc[0]['include_zero'] == iz and fc[0]['component_index'] == CI and fc[0]['n'] is var(names[0] + '_try', 'I') and fc[0]['m'] is var(names[1] + '_try', 'I')
                 cx.ob("%s.iteration%d.candidate=fit(data,n',m')" % (tag, pi), [], blit(okc), kind='paths', function='find_best_fit',
                       statement="each candidate is the public fit() of the supplied data for the tried orders")
                 sums = getattr(r.ex, 'sums', [])
